@@ -61,7 +61,7 @@ def dead_status_false(e):
 
 
 def check(run, ctx):
-    run.each(ctx, [r1, r2, r3, r4, r5, r6, r7, r8])
+    run.each(ctx, [r1, r2, r3, r4, r5, r6, r7, r8, r9])
 
 
 def r8(run, ctx):
@@ -533,3 +533,46 @@ def _appended_and_yielded(f, s):
                         name in astq.names_in(y.value):
                     return True
     return False
+
+
+def misbound_positionals(ctx, f):
+    """[(site, argument name, parameter it lands in)] - a positional argument that is a
+    plain name, passed to a resolved callee that HAS a parameter of that very name, but in
+    another position: the value goes into the wrong slot."""
+    out = []
+    for s in ctx.sites(f):
+        if s.kind != 'call' or not s.precise or len(s.targets) != 1 or s.call is None:
+            continue
+        t = s.targets[0]
+        a = t.node.args
+        params = [x.arg for x in a.posonlyargs + a.args]
+        if t.cls is not None and params and params[0] in ('self', 'cls') and \
+                not any(d == 'staticmethod' for d, _ in t.decorators):
+            params = params[1:]
+        for i, arg in enumerate(s.call.args):
+            if isinstance(arg, ast.Starred):
+                break
+            if isinstance(arg, ast.Name) and i < len(params) and arg.id in params and \
+                    params[i] != arg.id:
+                out.append((s, arg.id, params[i]))
+    return out
+
+
+def r9(run, ctx):
+    run.rule('R9', 'a selection of watchers / processes reaches the callee in its own parameter')
+    # restart / stop / start hand a selection (watcher_iter_func) down through
+    # arbiter.restart -> _stop_watchers / _start_watchers: passed positionally into a callee
+    # whose parameters are in another order, it silently becomes another option and the callee
+    # falls back to "all watchers"
+    n = 0
+    for f in ctx.p.all_functions():
+        if not f.key.startswith(('circus.arbiter:', 'circus.watcher:', 'circus.commands.')):
+            continue
+        n += 1
+        for s, name, slot in misbound_positionals(ctx, f):
+            run.fail('R9', f, s.node.ast, '%s passes `%s` positionally to %s, where it lands in '
+                     'the parameter `%s` although the callee has a parameter `%s`: the value is '
+                     'taken for another option and the callee acts on its default (all watchers / '
+                     'all processes)' % (f.qualname, name, s.targets[0].qualname, slot, name),
+                     construct='MISBOUND-POSITIONAL %s' % name)
+    run.count('R9', n, 100, 'functions scanned for misbound positional arguments')
